@@ -258,17 +258,29 @@ def drive(agen, log):
         raise RuntimeError("client suspended on the fake connection")
 
 
-def run_fake(variant: str, cfg: dict, query, opname, variables, frames) -> dict:
-    """one execute_ws run against the scripted fake connection -> canonical trace"""
+def new_client(variant: str, cfg: dict):
+    """(module, client object, tracer) to be reused over several run_fake calls (histories)"""
+    tracer = RecTracer() if variant == "otel-tracer" else None
+    mod, client = make_client(variant, cfg, tracer)
+    return mod, client, tracer
+
+
+def run_fake(variant: str, cfg: dict, query, opname, variables, frames, existing=None, kwargs=None) -> dict:
+    """one execute_ws run against the scripted fake connection -> canonical trace.
+    existing: (module, client, tracer) of new_client() to run on an object that already has a history;
+    kwargs: the keyword arguments of this call (default: those described by cfg)"""
     log: list = []
     wires = [wire(f) for f in frames]
     fc = FakeConnect(wires, log)
-    tracer = RecTracer() if variant == "otel-tracer" else None
-    mod, client = make_client(variant, cfg, tracer)
+    if existing is None:
+        existing = new_client(variant, cfg)
+    mod, client, tracer = existing
+    span0 = len(tracer.spans) if tracer else 0
     old = mod.ws_connect
     mod.ws_connect = fc
     try:
-        exc = drive(client.execute_ws(query, opname, variables, **call_kwargs(cfg)), log)
+        exc = drive(client.execute_ws(query, opname, variables,
+                                      **(call_kwargs(cfg) if kwargs is None else kwargs)), log)
     finally:
         mod.ws_connect = old
     fin = "finished" if exc is None else classify_exception(exc, wires, frames)
@@ -283,9 +295,9 @@ def run_fake(variant: str, cfg: dict, query, opname, variables, frames) -> dict:
         connect = [list(args), [str(s) for s in (sub or [])],
                    {k: (str(v) if k == "origin" and v is not None else v) for k, v in kwargs.items()}]
     return {"connect": connect, "events": events, "fin": fin,
-            "spans": [s.name for s in tracer.spans] if tracer else [],
+            "spans": [s.name for s in tracer.spans[span0:]] if tracer else [],
             "ctx": (len(fc.calls), fc.entered, fc.exited),
-            "span_attrs": [(s.name, dict(s.attrs)) for s in tracer.spans] if tracer else []}
+            "span_attrs": [(s.name, dict(s.attrs)) for s in tracer.spans[span0:]] if tracer else []}
 
 
 # ------------------------------------------------------------------------------------------
